@@ -155,6 +155,9 @@ export function advCases() {
     ['type A = A | A;', 'A'], ['type A = A | A;', '{ p: A }'], ['type A = A & A;', 'A'], ['type Tree = Tree | Tree[] | (Tree & Tree);', 'Tree'], ['type Tree = Tree | Tree[] | (Tree & Tree);', '{ p: Tree }'],
     ['interface A extends A, A { x: 1 }', 'A'], ['interface A extends B, C {} interface B extends A, C {} interface C extends A, B {}', 'A'],
     ['type A = Partial<A> | Required<A>;', 'A'], ['type A = Pick<A, "x"> & Omit<A, "y">;', 'A'], ['type K = K | K; type A = Pick<{ x: 1 }, K>;', 'A'], ['type A = [A, A][0] | [A, A][1];', '{ p: A }'],
+    // a cycle the starting alias is not part of
+    ['type A = B; type B = C; type C = B;', 'A'], ['type A = B; type B = B;', 'A'], ['type A = B; type B = C; type C = D; type D = C;', '{ p: A }'], ['interface A extends B {} interface B extends C {} interface C extends B {}', 'A'],
+    ['type A = B; type B = C | string; type C = B;', '{ p: A }'], ['type K = L; type L = M; type M = L; type A = Pick<{ x: 1 }, K>;', 'A'], ['type A = B; type B = C[]; type C = B[number];', '{ p: A[number] }'],
     ['type A = NonNullable<A | A>;', '{ p: A }'], ['type A = Exclude<A | A, A>;', '{ p: A }'], ['type A = { x: A["x"] | A["x"] };', '{ p: A["x"] }'], ['type A = (A | A)["k"];', '{ p: A }'],
     ['type A = NonNullable<A>;', '{ p: A }'], ['type A = Exclude<A, null>;', '{ p: A }'], ['type A = A | string;', '{ p: A }'], ['interface I { k: I["k"] }', '{ p: I["k"] }'],
   ];
@@ -167,6 +170,18 @@ export function advCases() {
     ['type T = { a: 1 };', 'T extends object ? T : never'], ['', '{ [K in "a" | "b"]: K }'], ['import type { Ext } from "./ext";', 'Ext & { own: 1 }'], ['', 'ns.T'], ['', 'Readonly<{ a: 1 }>'],
     ['type T = { a: 1 };', 'T["zz"]'], ['type T = { a: 1 };', 'T[number]'], ['', '{ a: 1 }[keyof X]'], ['', 'Pick<{ a: 1 }, keyof X>'], ['', 'Array<string>'], ['', 'string[]'], ['', '[1, 2]'],
   ];
+  // a reference nothing in scope declares, while other scopes declare the same name (2-4 times): still unresolvable, and the same every time
+  for (const k of [2, 3, 4]) for (const kind of ['interface', 'alias', 'mixed']) {
+    const scopes = [];
+    for (let j = 0; j < k; j++) {
+      const member = ['foo: string', 'bar: number', 'baz: boolean', 'qux: Date'][j];
+      const d = kind === 'interface' || (kind === 'mixed' && j % 2 === 0) ? `interface Shared { ${member} }` : `type Shared = { ${member} };`;
+      scopes.push(j === 0 ? `declare global { ${d.startsWith('interface') ? d : 'interface Shared { foo: string }'} }` : j % 2 ? `function scope${j}() { ${d} return 1; }` : `const scope${j} = () => { ${d} return 2; };`);
+    }
+    unresolvable.push([scopes.join('\n'), 'Shared'], [scopes.join('\n'), 'Shared & { own: 1 }']);
+    // as the type of one prop nothing has to be reported (the runtime type falls back); the output must still be the same every time
+    out.push({ tag: 'shadow-scope-prop-type', expectDiag: false, src: wrap(scopes.join('\n'), '{ p: Shared; q?: Shared | string }'), syntax: 'tsx', options: rt });
+  }
   for (const [decls, p] of unresolvable) out.push({ tag: 'unresolvable-type', expectDiag: true, src: wrap(decls, p), syntax: 'tsx', options: rt });
   const malformed = ['<C v-model />', '<C v-model="s" />', '<input v-model />', '<C v-models />', '<C v-models="s" />', '<C v-models={x} />', '<div v-html />', '<div v-text />', '<C v-model={[]} />', '<C v-model={[, "a"]} />', '<C v-model={[...r]} />', '<C v-models={[[]]} />'];
   for (const m of malformed) for (const o of [{}, { optimize: true }]) out.push({ tag: 'malformed-directive', expectDiag: true, src: `const v = ${m};`, syntax: 'jsx', options: o });
